@@ -60,6 +60,12 @@ class G:
         self.parts = parts
         self.members = members  # for bundles: list of member descriptors (G or vector dims)
         self.ssize = 8 if scalar == "double" else 4
+        # further accessor spellings reaching the same sub-ranges (run-time indexed overloads with literal arguments);
+        # not used for the disjoint/cover computation
+        self.extra_parts = []
+        if "SE_K_3" in ctype:
+            K = int(ctype.rstrip(">").split(",")[-1])
+            self.extra_parts = [Part("r3(%d)" % k, 3 * k, 3, "vec", None) for k in range(K)]
 
     def map(self):
         return "smooth::Map<%s>" % self.ctype
